@@ -237,8 +237,8 @@ public:
 			add_initial_gap(first_file_entry_pos);
 			added_initial_gap = true;
 		      }
-		    auto last_sec = catalogs[c][entry].last_sector();
-		    maybe_gap(last_sec+1, start_sec_of_next(c, entry));
+		    maybe_gap(catalogs[c][entry].end_sector(),
+			      start_sec_of_next(c, entry));
 		  }
 	      }
 	  }
